@@ -60,8 +60,8 @@ Theorem C11_start_step_preserved_refuted : exists t0 tstep n sdate stime s d h t
   /\ impl_slice_time t0 tstep n sdate stime (Some s) = Some (d, h, ts)
   /\ attr_time d h ts 1 <> t0 + (1 + 1) * sec_of_hhmmss tstep.
 Proof.
-  exists (sec_of_flag 1999365 220000), 250000, 4, 1999365, 220000, (SSlice (Some 1) None).
-  eexists; eexists; eexists. vm_compute. repeat split; try reflexivity; discriminate.
+  exists 946677600, 250000, 4, 1999365, 220000, (SSlice (Some 1) None), 2000001, 230000, 10000.
+  vm_compute. split; [discriminate|]. split; [reflexivity|]. split; [reflexivity|discriminate].
 Qed.
 Print Assumptions C11_start_step_preserved_refuted.
 
@@ -70,5 +70,5 @@ Example C11_combined_window_inhabited :
   impl_window (Grid (-804) 162 96 36 [1024; 768; 512; 0] 1999365 220000 10000 4 5 6)
               (Win (Some (SSlice (Some 1) (Some 3))) (Some (SInt 1)) (Some (SInt (-2))) (Some (SSlice (Some 2) None)))
   = Some (Out (-612) 270 [768; 512] 1999365 230000 10000
-              [sec_of_flag 1999365 230000; sec_of_flag 2000001 0]).
+              [946681200; 946684800]).
 Proof. vm_compute. reflexivity. Qed.
